@@ -724,3 +724,11 @@ Lemma pool_kwarg_merge_spec : forall obj call,
   (forall v, call = Some v -> src_mp_pool_kwarg obj call = Some v /\ src_loky_executor_kwarg obj call = Some v) /\
   (call = None -> src_mp_pool_kwarg obj call = obj /\ src_loky_executor_kwarg obj call = obj).
 Proof. intros [o|] [c|]; split; intros; try discriminate; try (inversion H; subst); split; reflexivity. Qed.
+
+(* loky: with the regenerated facts, a reused executor keeps the folder it was created with, whatever this call resolved *)
+Lemma loky_reused_keeps_old_folder : forall prev given,
+  loky_folder_used reuse_key_has_temp_folder reused_executor_gets_new_manager prev given true = prev.
+Proof. reflexivity. Qed.
+
+Lemma loky_fresh_uses_given : forall k m prev given, loky_folder_used k m prev given false = given.
+Proof. reflexivity. Qed.
